@@ -47,6 +47,38 @@ class Cap:
         return self.const is not None or self.syms or self.fields
 
 
+def bits_needed(v, depth=0):
+    """an upper bound on the number of significant bits of an unsigned value, from its construction alone"""
+    v0 = v
+    if v.is_const:
+        return v.uval.bit_length() if v.is_int else 64
+    m = re.match(r"i(\d+)$", getattr(v, "ty", "") or "")
+    tw = int(m.group(1)) if m else 64
+    if depth > 12 or not v.is_inst:
+        return tw
+    op = v.op
+    if op == "zext":
+        return min(tw, bits_needed(v.ops[0], depth + 1))
+    if op == "trunc":
+        return min(tw, bits_needed(v.ops[0], depth + 1))
+    if op == "and":
+        return min(bits_needed(v.ops[0], depth + 1), bits_needed(v.ops[1], depth + 1))
+    if op in ("or", "xor"):
+        return min(tw, max(bits_needed(v.ops[0], depth + 1), bits_needed(v.ops[1], depth + 1)))
+    if op == "lshr" and v.ops[1].is_const:
+        return max(0, bits_needed(v.ops[0], depth + 1) - v.ops[1].uval)
+    if op == "urem" and v.ops[1].is_const:
+        return min(tw, (v.ops[1].uval - 1).bit_length())
+    if op == "udiv":
+        return bits_needed(v.ops[0], depth + 1)
+    if op in ("select", "phi"):
+        ops = v.ops[1:] if op == "select" else [o for o in v.ops if o is not v0]
+        return min(tw, max([bits_needed(o, depth + 1) for o in ops] or [tw]))
+    if op == "shl" and v.ops[1].is_const:
+        return min(tw, bits_needed(v.ops[0], depth + 1) + v.ops[1].uval)
+    return tw
+
+
 class Bounder:
     def __init__(self, prog, f):
         self.prog, self.f = prog, f
@@ -54,7 +86,44 @@ class Bounder:
 
     # ---- helpers
     def guards(self, block):
-        return self.f.guards_at(block)
+        """conditional edges dominating the block, plus tag-mediated imports: where the block is guarded by
+        load(L) == C and every store of C to L in this function sits under guards G, G holds as well"""
+        key = id(block)
+        cache = self.__dict__.setdefault("_gcache", {})
+        if key in cache:
+            return cache[key]
+        base = list(self.f.guards_at(block))
+        cache[key] = base          # recursion guard
+        out = list(base)
+        for cond, outcome, br in base:
+            if not (cond.is_inst and cond.op == "icmp" and cond.pred in ("eq", "ne") and outcome == (cond.pred == "eq")):
+                continue
+            a, b = cond.ops
+            if not (b.is_const and b.is_int):
+                continue
+            l = _uncast(a)
+            if not (l.is_inst and l.op == "load"):
+                continue
+            loc = l.ops[0]
+            stores = [i for i in self.f.insts() if i.op == "store" and _same_loc(self.prog, self.f, i.ops[1], loc) and
+                      self.f.reaches(i.bb, l.bb)]
+            if not stores or any(not (s_.ops[0].is_const and s_.ops[0].is_int) for s_ in stores):
+                continue
+            match = [s_ for s_ in stores if s_.ops[0].uval == b.uval]
+            # a later store of another constant that dominates the load kills the earlier ones
+            live = []
+            for s_ in match:
+                killed = any(t is not s_ and t.ops[0].uval != b.uval and self.f.inst_dominates(s_, t) and
+                             self.f.inst_dominates(t, l) for t in stores)
+                if not killed:
+                    live.append(s_)
+            if len(live) != 1:
+                continue
+            for g in self.f.guards_at(live[0].bb):
+                if g not in out:
+                    out.append(g)
+        cache[key] = out
+        return out
 
     def rel_facts(self, block, v):
         """[(bound value, strict)] for guards  v < b / v <= b  holding in block (v matched modulo casts)"""
@@ -82,6 +151,9 @@ class Bounder:
     def _same_val(self, x, v):
         """structurally the same computation over the same (unmodified) memory"""
         x, v = _uncast(x), _uncast(v)
+        if x.is_inst and v.is_inst and x.op == "call" and v.op == "call" and norm_callee(x.callee) == "strlen" and \
+                norm_callee(v.callee) == "strlen":
+            return same_quantity(self.prog, self.f, x, v)
         if x.is_const or v.is_const or not (x.is_inst and v.is_inst) or x.op != v.op or x.op in ("load", "phi", "call"):
             return False
         return _same_expr(self.prog, self.f, x, v)
@@ -132,6 +204,8 @@ class Bounder:
         seen = seen | {key}
         u = _uncast(v)
         if self.is_cap(u, Q):
+            return True
+        if Q.const is not None and bits_needed(v) <= Q.const.bit_length() and (1 << bits_needed(v)) - 1 <= Q.const:
             return True
         # guards at the point of use
         for (b, strict) in self.rel_facts(at.bb, u):
@@ -207,6 +281,8 @@ class Bounder:
             loc = u.ops[0]
             if self._validated_outparam(u, at, Q):
                 return True
+            if self._field_via_callers(u, Q, depth):
+                return True
             stores = [i for i in self.f.insts() if i.op == "store" and _same_loc(self.prog, self.f, i.ops[1], loc)]
             reaching = [s for s in stores if self._may_reach(s, u)]
             if not reaching:
@@ -222,9 +298,81 @@ class Bounder:
             else:
                 return False          # may also hold a value from before the function: unknown
             return all(self.bounded(s.ops[0], s, Q, depth + 1, seen) for s in reaching)
-        if op in ("add", "mul", "shl", "or"):
+        if op == "add" and Q.const is not None:
+            a_, b_ = u.ops
+            if b_.is_const and b_.is_int and 0 <= b_.sval <= Q.const:
+                return self.bounded(a_, at, Cap(const=Q.const - b_.sval, desc=Q.desc), depth + 1, seen)
+            if a_.is_const and a_.is_int and 0 <= a_.sval <= Q.const:
+                return self.bounded(b_, at, Cap(const=Q.const - a_.sval, desc=Q.desc), depth + 1, seen)
+            return False
+        if op == "mul" and Q.const is not None:
+            a_, b_ = u.ops
+            if b_.is_const and b_.is_int and b_.uval > 0:
+                return self.bounded(a_, at, Cap(const=Q.const // b_.uval, desc=Q.desc), depth + 1, seen)
             return False
         return False
+
+    def _field_via_callers(self, load, Q, depth):
+        """the value is a field of an object received as a parameter; it is bounded if in every caller the same field of
+        the actual argument is bounded at the call (guards on a load of it, or stores into a local object)"""
+        if depth > 6 or Q.const is None:
+            return False
+        base, off, exact = resolve_ptr(self.prog, load.ops[0], self.f.unit)
+        b = strip_casts(base)
+        if not (b.is_arg and exact):
+            return False
+        # the callee itself must not write the field before the load
+        for i in self.f.insts():
+            if i.op == "store" and _same_loc(self.prog, self.f, i.ops[1], load.ops[0]):
+                return False
+        cs = self.prog.callers_of(self.f)
+        if not cs:
+            return False
+        Qt = Cap(const=Q.const, fields=Q.fields, desc=Q.desc)
+        for c in cs:
+            if b.idx >= len(c.ops):
+                return False
+            g = c.fn
+            act = c.ops[b.idx]
+            ab, aoff, aex = resolve_ptr(self.prog, act, g.unit)
+            if not aex:
+                return False
+            Bg = Bounder(self.prog, g)
+            ok = False
+            # (a) loads of the same field in the caller with a bounding guard at the call
+            for i in g.insts():
+                if i.op == "load" and i.ty == load.ty:
+                    lb, loff, lex = resolve_ptr(self.prog, i.ops[0], g.unit)
+                    if lex and loff == aoff + off and (strip_casts(lb) is strip_casts(ab) or
+                                                        _same_loc(self.prog, g, lb, ab) if False else strip_casts(lb) is strip_casts(ab)):
+                        for (bv, strict) in Bg.rel_facts(c.bb, i):
+                            if Bg.is_cap(bv, Qt) or Bg.bounded(bv, c, Qt, depth + 3):
+                                ok = True
+            # (b) the object is the caller's local and the field was stored before the call
+            if not ok and strip_casts(ab).is_inst and strip_casts(ab).op == "alloca":
+                sts = []
+                for i in g.insts():
+                    if i.op == "store":
+                        sb, soff, sex = resolve_ptr(self.prog, i.ops[1], g.unit)
+                        if sex and soff == aoff + off and strip_casts(sb) is strip_casts(ab):
+                            sts.append(i)
+                doms = [s_ for s_ in sts if g.inst_dominates(s_, c)]
+                if doms and all(Bg.bounded(s_.ops[0], s_, Qt, depth + 3) for s_ in sts if g.inst_dominates(s_, c) or g.reaches(s_.bb, c.bb)):
+                    ok = True
+                # whole-struct copy into the local (ent = *other): give up
+            # (c) the caller merely forwards its own parameter's field
+            if not ok and strip_casts(ab).is_arg:
+                fake = None
+                for i in g.insts():
+                    if i.op == "load" and i.ty == load.ty:
+                        lb, loff, lex = resolve_ptr(self.prog, i.ops[0], g.unit)
+                        if lex and loff == aoff + off and strip_casts(lb) is strip_casts(ab):
+                            fake = i
+                if fake is not None and Bg._field_via_callers(fake, Qt, depth + 2):
+                    ok = True
+            if not ok:
+                return False
+        return True
 
     def _validated_outparam(self, load, at, Q):
         """the value was produced through an out-parameter of a helper that range-checks it before reporting success,
